@@ -274,6 +274,29 @@ def f_front_all(s):
     return out
 
 
+def f_to_float(s):
+    '''What MIP.mip.datacard.to_float hands to float(): 'F' + the token
+    itself when float() reads it, 'X' + the rebuilt spelling
+    (mantissa e exponent) when only the Fortran fallback reads it, 'N' when
+    to_float raises ValueError. Observed by shadowing `float` in the module's
+    globals, no internal name is needed.'''
+    from MIP.mip import datacard
+    seen = []
+
+    def spy(arg):
+        seen.append(arg)
+        return float(arg)
+    datacard.float = spy
+    try:
+        try:
+            datacard.to_float(s)
+        except ValueError:
+            return 'N'
+    finally:
+        del datacard.float
+    return ('F' if len(seen) == 1 else 'X') + seen[-1]
+
+
 FUNS = {
     0: ('is_comment', f_is_comment), 1: ('has5', f_has5),
     2: ('amp_cont', f_amp_cont), 3: ('expand_tabs', f_expand_tabs),
@@ -286,6 +309,7 @@ FUNS = {
     16: ('nonvoid_split', f_nonvoid), 17: ('likebut_split', f_likebut),
     18: ('opt_tokens', f_opt_tokens), 19: ('lower', f_lower),
     20: ('front', f_front), 21: ('front_all', f_front_all),
+    22: ('to_float', f_to_float),
 }
 FUNS = {fid: (name, limited(fun)) for fid, (name, fun) in FUNS.items()}
 FID = {name: fid for fid, (name, _) in FUNS.items()}
@@ -305,6 +329,7 @@ REQUIRES = {
     'has5': [('MIP.mip.cards', 'is_continuation')],
     'amp_cont': [('MIP.mip.cards', 'is_continuation')],
     'expand_tabs': [('MIP.mip.cards', 'expand_tabs')],
+    'to_float': [('MIP.mip.datacard', 'to_float')],
 }
 
 
